@@ -2,6 +2,7 @@
     the harness sends  ["op", arg]  as one line of ASCII JSON, the model answers one line. *)
 From InToto.Model Require Import Base Json Rule Glob Rules Utf8 Match DirDigest Canon EntryVerify.
 From InToto.Model Require EntryRun.
+From InToto.Model Require Import EntryResolve.
 
 Definition s_ok : str := [111;107]%N.
 Definition jok (j : json) : json := JDict [(s_ok, j)].
@@ -116,6 +117,7 @@ Definition op_rules_trace : str := [114;117;108;101;115;95;116;114;97;99;101]%N.
 Definition op_fnmatch : str := [102;110;109;97;116;99;104]%N.
 
 Definition run_op (op : str) (arg : json) : json :=
+  match run_op_resolve op arg with Some j => j | None =>
   if eqs op op_verify then verify_op arg
   else if eqs op op_canon then canon_op arg
   else if eqs op op_match_products then match_products_op arg
@@ -131,7 +133,8 @@ Definition run_op (op : str) (arg : json) : json :=
     (* unpack, then pack the meaning: {"ok": [tokens]} / {"err": ..} ; error if unpack fails *)
     jres jstr_list (do m <- unpack_rule arg; pack_rule m)
   else match EntryRun.run_op_run op arg with Some r => r | None =>
-  jerr EUnmodelled end.
+  jerr EUnmodelled end
+  end.
 
 Definition bad_request : list N := [66;65;68;45;82;69;81;85;69;83;84]%N.
 
